@@ -17,9 +17,10 @@ Proved:
   (prefix/regex parsing incl. the decimal array length), for every ABI;
 * `shape_roundtrip_registered` — the instances at every supported registered type of the
   reference VM and of the framework's ABI mock set, by evaluation (also non-vacuity);
-* `unsupported_reported` — `bool` and named non-struct field types (`state.Permissions`,
-  `codec.Bytes`, `ids.ID`) are *reported* (`type … not found in ABI`): the round trip fails
-  loudly — `c29_counterexample`: the known findings for `abi.Bools` / `chaintest.TestAction`;
+* `unsupported_reported` — named non-struct field types (`state.Permissions`, `codec.Bytes`,
+  `ids.ID`) are *reported* (`type … not found in ABI`): the round trip fails loudly —
+  `c29_counterexample`: the known finding for `chaintest.TestAction`. (`bool` is supported since
+  fix C29-dynamic-bool; output types are encodable since fix C29-dynamic-marshal-outputs.)
 * `ptr_misdescribed` / `map_misdescribed` — pointers and maps are printed as `[]T` and come
   back as slices with a different shape *without* an error (not used by any registered type).
 What stays a parameter (hence the property is PARTIAL): the value-level agreement
@@ -33,6 +34,7 @@ open HyperModel.ABI HyperModel.Proofs.ABI
 inductive Leaf : GoTy → Prop
   | prim (p : Prim) : Leaf (.prim p)
   | address : Leaf .address
+  | bool : Leaf .bool
   | slice {t : GoTy} : Leaf t → Leaf (.slice t)
   | array (n : Nat) {t : GoTy} : Leaf t → Leaf (.array n t)
 
@@ -52,6 +54,11 @@ theorem leaf_roundtrip {t : GoTy} (h : Leaf t) :
     cases fuel with
     | zero => simp [depth] at hf
     | succ f => exact address_roundtrip abi f
+  | bool =>
+    refine ⟨boolName, rfl, by decide, fun abi fuel hf => ?_⟩
+    cases fuel with
+    | zero => simp [depth] at hf
+    | succ f => exact bool_roundtrip abi f
   | slice _ ih =>
     obtain ⟨nm, h1, h2, h3⟩ := ih
     refine ⟨'[' :: ']' :: nm, by simp [typeName, h1], by simp, fun abi fuel hf => ?_⟩
@@ -136,7 +143,7 @@ theorem shape_roundtrip (n : Name) (fs : Fields) (hsup : SupTy (.struct n fs))
     describeAll_eq _ hall
   obtain ⟨nm, t', h1, h2, h3⟩ :=
     rtTy _ hc (.struct n fs) hsup (fun x hx => hx) (depth (.struct n fs) + 1) (Nat.le_succ _)
-  have hn : n ≠ [] := by cases hsup with | struct hg _ _ => exact hg.2.2.2.2
+  have hn : n ≠ [] := by cases hsup with | struct hg _ _ => exact hg.2.2.2.2.2
   have hnm : nm = n := by
     simp only [typeName, hn, if_false, Option.some.injEq] at h1; exact h1.symm
   subst hnm
@@ -146,7 +153,7 @@ theorem shape_roundtrip (n : Name) (fs : Fields) (hsup : SupTy (.struct n fs))
 /-- non-vacuity: the reference VM's `Transfer` satisfies the hypotheses -/
 example : SupTy transferTy ∧ Consistent (structsOf transferTy) := by
   refine ⟨?_, ?_⟩
-  · refine .struct ⟨rfl, rfl, rfl, rfl, by decide⟩ (by decide) ?_
+  · refine .struct ⟨rfl, rfl, rfl, rfl, rfl, by decide⟩ (by decide) ?_
     refine .cons ⟨rfl, rfl, by decide, by decide⟩ .address ?_
     refine .cons ⟨rfl, rfl, by decide, by decide⟩ (.prim _) ?_
     exact .cons ⟨rfl, rfl, by decide, by decide⟩ (.slice (.prim _)) .nil
@@ -157,10 +164,10 @@ example : SupTy transferTy ∧ Consistent (structsOf transferTy) := by
 /-- non-vacuity with nesting: `Outer{inner Inner; innerArr []Inner}` (the same struct twice) -/
 example : SupTy outerTy ∧ Consistent (structsOf outerTy) := by
   have hin : SupTy innerTy :=
-    .struct ⟨rfl, rfl, rfl, rfl, by decide⟩ (by decide)
+    .struct ⟨rfl, rfl, rfl, rfl, rfl, by decide⟩ (by decide)
       (.cons ⟨rfl, rfl, by decide, by decide⟩ (.prim _) .nil)
   refine ⟨?_, ?_⟩
-  · refine .struct ⟨rfl, rfl, rfl, rfl, by decide⟩ (by decide) ?_
+  · refine .struct ⟨rfl, rfl, rfl, rfl, rfl, by decide⟩ (by decide) ?_
     refine .cons ⟨rfl, rfl, by decide, by decide⟩ hin ?_
     exact .cons ⟨rfl, rfl, by decide, by decide⟩ (.slice hin) .nil
   · intro n fs fs' h h'
@@ -171,9 +178,9 @@ example : SupTy outerTy ∧ Consistent (structsOf outerTy) := by
 /-! ### the property itself (value level) — partial
 
 Full statement (kept visible; NOT provable here — `linearcodec` and `encoding/json` are
-third-party code, and it is FALSE on the unchanged code for `bool` / named non-struct fields
-(`c29_counterexample`) and, in the encoding direction, for every *output* type (`dynamic.Marshal`
-searches `abi.Actions` only — known finding `dynamic-marshal-output-type-not-found`):
+third-party code, and it is FALSE for named non-struct fields (`c29_counterexample`); the
+failures for `bool` fields and for output types were repaired by the fixes C29-dynamic-bool and
+C29-dynamic-marshal-outputs):
 
     theorem dynamic_codec_agrees : ∀ registered T, ∀ v : T,
       dynamic.Marshal(abi, T, json v) = v.Bytes() ∧ dynamic.Unmarshal(abi, v.Bytes(), T) ≡ json v
@@ -206,39 +213,30 @@ theorem dynamic_codec_agrees_partial {α : Type} (codec : GoTy → α)
 
 /-! ### unsupported kinds -/
 
-/-- **unsupported_reported** (bool): unless the ABI itself defines a type called `bool`,
-`getReflectType("bool")` is an error — also below slices and arrays. -/
-theorem unsupported_reported (abi : ABI) (fuel : Nat) (h : findType abi boolName = none) :
-    reflectType abi (fuel + 1) boolName = .error .notFound := by
-  have h1 : allPrims.find? (fun p => p.name == boolName) = none := by rfl
-  have h2 : (boolName == addressName) = false := by rfl
-  have h3 : slicePrefix? boolName = none := by rfl
-  have h4 : arrayRegex boolName = none := by rfl
-  simp only [reflectType, h1, h2, h3, h4, h]
-  rfl
-
 /-- named non-struct field types are printed by their bare Go name; nothing adds them to the
 ABI, so the lookup fails (witness: `[]state.Permissions` in `chaintest.TestAction`). -/
-theorem unsupported_reported_named (abi : ABI) (fuel : Nat)
+theorem unsupported_reported (abi : ABI) (fuel : Nat)
     (h : findType abi "Permissions".toList = none) :
     reflectType abi (fuel + 2) ("[]Permissions".toList) = .error .notFound := by
   have h1 : allPrims.find? (fun p => p.name == "Permissions".toList) = none := by rfl
   have h2 : ("Permissions".toList == addressName) = false := by rfl
+  have hb : ("Permissions".toList == boolName) = false := by rfl
   have h3 : slicePrefix? "Permissions".toList = none := by rfl
   have h4 : arrayRegex "Permissions".toList = none := by rfl
   have e : "[]Permissions".toList = '[' :: ']' :: "Permissions".toList := by rfl
   rw [e, slice_roundtrip]
-  simp only [reflectType, h1, h2, h3, h4, h]
+  simp only [reflectType, h1, hb, h2, h3, h4, h]
   rfl
 
 def boolsTy : GoTy := mkStruct "Bools" [fld "Bool1" "bool1" .bool, fld "BoolArray" "boolArray" (.slice .bool)]
 def permsTy : GoTy := mkStruct "TestAction"
   [fld "SpecifiedStateKeyPermissions" "specifiedStateKeyPermissions" (.slice (.named "Permissions".toList (.prim .u8)))]
 
-/-- the two registered types for which the property fails on the unchanged code -/
-theorem c29_counterexample :
-    roundtrip boolsTy = some (.error .notFound) ∧ roundtrip permsTy = some (.error .notFound) := by
-  constructor <;> rfl
+/-- the registered type for which the property still fails (named non-struct field) -/
+theorem c29_counterexample : roundtrip permsTy = some (.error .notFound) := by rfl
+
+/-- `bool` fields are supported (abi/dynamic `case "bool"`, fix C29-dynamic-bool) -/
+theorem bools_roundtrip : roundtrip boolsTy = some (.ok (shape boolsTy)) := by rfl
 
 def ptrTy : GoTy := mkStruct "XPtr" [fld "P" "p" (.ptr innerTy)]
 def mapTy : GoTy := mkStruct "XMap" [fld "M" "m" (.map (.prim .str) (.prim .u8))]
